@@ -6,6 +6,7 @@
 #define MUTEX_WORD(m) (&(m).m_flag)
 #endif
 #include MUTEX_HDR
+#include "hb.h"
 #include <cstdio>
 #include <cstring>
 #include <sstream>
@@ -24,15 +25,16 @@ static bool run_once(verif::Schedule& sch, int run_idx, bool print) {
     std::vector<std::function<void()>> bodies;
     for (size_t t = 0; t < T; ++t) bodies.push_back([&, t] {
         bool held = false;
-        auto acquire = [&] { if (holders) gerr = "second thread entered the critical section"; holders++; held = true; };
+        auto acquire = [&] { if (holders) gerr = "second thread entered the critical section"; holders++; held = true; cs_w(); };
         for (auto& op : g_progs[t]) {
             if (op == "lock" && !held) { eff[t].push_back(op); m.lock(); acquire(); }
             else if (op == "try_lock" && !held) { eff[t].push_back(op); bool b = m.try_lock(); res[t].push_back(b); if (b) acquire(); }
-            else if (op == "unlock" && held) { eff[t].push_back(op); holders--; held = false; m.unlock(); }
+            else if (op == "unlock" && held) { eff[t].push_back(op); cs_w(); holders--; held = false; m.unlock(); }
         }
-        if (held) { eff[t].push_back("unlock"); holders--; m.unlock(); }
+        if (held) { eff[t].push_back("unlock"); cs_w(); holders--; m.unlock(); }
     });
     verif::Result r = verif::run(bodies, sch);
+    if (gerr.empty()) gerr = cs_hb(r, bodies.size());
     bool ok = gerr.empty() && !r.deadlock;
     if (print || !ok) {
         printf("run %d\n", run_idx);
